@@ -193,6 +193,7 @@ def run_check(check, tier="quick", seed=0, workers=None, replay=None, log=sys.st
     n_cases = 0
     for (kind, detail), models_ in by_key.items():
         tried = 0
+        if hasattr(check, "rank"): models_.sort(key=check.rank)
         for model in models_[:3]:
             case = check.case(kind, detail, model)
             if case is None: continue
